@@ -245,3 +245,13 @@ package j5reflect
 //@   |   ((result1 == nil) <==> (intText(numText(value)) && !signed(numText(value)) && 0 <= intVal(numText(value)) && intVal(numText(value)) <= 4294967295)) && (result1 == nil ==> pvNum(result0) == intVal(numText(value)))
 //@   ensures uint64: isNumText(value) && intFmt(schema, schema_j5pb.IntegerField_FORMAT_UINT64) ==>
 //@   |   ((result1 == nil) <==> (intText(numText(value)) && !signed(numText(value)) && 0 <= intVal(numText(value)) && intVal(numText(value)) <= 18446744073709551615)) && (result1 == nil ==> pvNum(result0) == intVal(numText(value)))
+
+// scalar containers keep the item schema they were built with, and it carries its proto form
+//@ type *arrayOfScalarField invariant a: a != nil && a.itemSchema != nil && a.itemSchema.Proto != nil
+//@ type *mapOfScalarField invariant m: m != nil && m.itemSchema != nil && m.itemSchema.Proto != nil
+//@ func newLeafArrayField
+//@   requires scalarOK(schema.Schema)
+//@   ensures scalar: result1 == nil && typeis(result0, *arrayOfScalarField) ==> as(*arrayOfScalarField, result0) != nil && as(*arrayOfScalarField, result0).itemSchema != nil && as(*arrayOfScalarField, result0).itemSchema.Proto != nil
+//@ func newLeafMapField
+//@   requires scalarOK(schema.Schema)
+//@   ensures scalar: result1 == nil && typeis(result0, *mapOfScalarField) ==> as(*mapOfScalarField, result0) != nil && as(*mapOfScalarField, result0).itemSchema != nil && as(*mapOfScalarField, result0).itemSchema.Proto != nil
